@@ -169,7 +169,7 @@ func siblingOdds() int {
 func genElem(t *rapid.T, glob bool) gn.Elem {
 	alpha := []string{"a", "b", "c"}
 	if richNames {
-		alpha = []string{"a", "a", "ab", "a/b", "a1"}
+		alpha = []string{"a", "a", "ab", "a/b", "a1", "aé"}
 	}
 	if glob {
 		alpha = append(append([]string{}, alpha...), "*", "*")
